@@ -75,12 +75,15 @@ def parseErr : String → Option RdErr
 def parseNoBody (s : String) : Option (List ReadRes) :=
   if s.startsWith "N" then (s.drop 1).toString.toNat?.map fun k => List.replicate k ⟨[], .eof⟩ else none
 
-def parseReads (s : String) : Option (List ReadRes) :=
-  if s.startsWith "N" then parseNoBody s else
+/-- consumer calls: `data:err:extra` = a `Read` (what the wrapped body returns for it), `C` / `Cx` = a `Close`
+(the wrapped body's `Close` returns nil / an error) -/
+def parseCalls (s : String) : Option (List Call) :=
+  if s.startsWith "N" then (parseNoBody s).map (·.map Call.read) else
   if s = "_" then some [] else
   (s.splitOn ";").mapM fun r =>
+    if r = "C" then some (Call.close .none) else if r = "Cx" then some (Call.close .other) else
     match r.splitOn ":" with
-    | [d, e, _extra] => do let d ← dataTok d; let e ← parseErr e; pure ⟨d, e⟩
+    | [d, e, _extra] => do let d ← dataTok d; let e ← parseErr e; pure (Call.read ⟨d, e⟩)
     | _ => none
 
 def parseHdrs (s : String) : Option (List (Bytes × List Bytes)) :=
@@ -99,6 +102,7 @@ structure Msg where
   hdrs : List (Bytes × Bytes)
   reads : List ReadRes
   noBody : Bool
+  calls : List Call := []
 
 def tsName : Bytes := strBytes ":timestamp"
 
@@ -118,7 +122,8 @@ def parseMsg (tok : String) (ts : Bytes := []) (ko : List Bytes := []) : Option 
     let te ← parseTE te
     let hdr ← parseHdrs hdrs
     let nb := reads.startsWith "N"
-    let reads ← parseReads reads
+    let calls ← parseCalls reads
+    let reads := Call.reads calls
     let f0 : Fields := { hdr := hdr, host := host, cl := cl, clText := strBytes (toString cl.toNat), te := te }
     let f : Fields := if ko.isEmpty then f0 else { hdr := orderMap f0.map ko, host := [], cl := 0, clText := [], te := none }
     let ps := pseudo.splitOn ","
@@ -127,13 +132,13 @@ def parseMsg (tok : String) (ts : Bytes := []) (ko : List Bytes := []) : Option 
       | [m, sch, au, pa, qu, pr, rem] => do
         let m ← unhex m; let sch ← unhex sch; let au ← unhex au; let pa ← unhex pa
         let qu ← unhex qu; let pr ← unhex pr; let rem ← unhex rem
-        pure ⟨1, id, requestHeaders m sch au pa qu pr rem ts api f, reads, nb⟩
+        pure ⟨1, id, requestHeaders m sch au pa qu pr rem ts api f, reads, nb, calls⟩
       | _ => none
     else if kind = "s" then
       match ps with
       | [pr, st, reason] => do
         let pr ← unhex pr; let st ← st.toNat?; let reason ← unhex reason
-        pure ⟨2, id, responseHeaders pr (strBytes (toString st)) reason ts api f, reads, nb⟩
+        pure ⟨2, id, responseHeaders pr (strBytes (toString st)) reason ts api f, reads, nb, calls⟩
       | _ => none
     else none
   | _ => none
@@ -145,8 +150,15 @@ def showHdr (f : Frame) : String :=
 def showData (f : Frame) : String :=
   s!"{f.index}:{bit f.terminal}:{f.payload.length}:{hex64 (fnv f.payload)}:{hex64 (fnv (encode f))}"
 
-def showRet (r : ReadRes) : String :=
-  s!"{r.data.length}" ++ (match r.err with | .none => "n" | .eof => "e" | .other => "x")
+def errLetter : RdErr → String
+  | .none => "n" | .eof => "e" | .other => "x"
+
+def showRet (r : ReadRes) : String := s!"{r.data.length}" ++ errLetter r.err
+
+/-- what a call returned to the consumer: a read as `<n><err>`, a close as `C<err>` -/
+def showCall : Call → String
+  | .read r => showRet r
+  | .close e => "C" ++ errLetter e
 
 def joinOr (sep : String) (l : List String) : String := if l.isEmpty then "-" else sep.intercalate l
 
@@ -155,7 +167,7 @@ def showMsg (got : List Frame) (i : Nat) (m : Msg) : String :=
   let hs := ((mine.filter fun f => !f.isData).map showHdr).mergeSort (fun a b => decide (a ≤ b))
   let ds := (mine.filter Frame.isData).map showData
   -- a request's http.NoBody is not wrapped: the consumer reads it directly
-  let rets := (if m.noBody && m.mt == 1 then m.reads else (bodyRun m.mt (m.id.take 8) 0 m.reads).1).map showRet
+  let rets := (if m.noBody && m.mt == 1 then m.calls else (callRun false m.mt (m.id.take 8) 0 false m.calls).1).map showCall
   s!"m{i}=" ++ joinOr "," hs ++ "|" ++ joinOr "," ds ++ "|" ++ joinOr "," rets
 
 /-- what the run decided (`ord=…`, `ts=…` tokens), split from the message tokens -/
